@@ -76,6 +76,18 @@ pub struct Mode {
     pub max_programs: usize,
     /// additionally explore "scheduler returns None here" at every decision
     pub stop_children: bool,
+    /// C01: instead of the model check, replay every execution from its recorded schedule string
+    pub replay_check: bool,
+    /// seed of the data stream (replay_check)
+    pub seed: u64,
+    /// C14: run every execution B after every predecessor A in one Runner::run and alone; compare
+    pub iso_check: bool,
+    /// C14: at most this many B schedules per program (evenly spread), 0 = all
+    pub iso_max_b: usize,
+    /// C15: vector-clock check instead of the model check
+    pub clock_check: bool,
+    /// C15: target-clock replay for every thread's last operation (else main's only)
+    pub clock_all_targets: bool,
 }
 
 impl Default for Mode {
@@ -90,6 +102,12 @@ impl Default for Mode {
             max_violations_per_program: 3,
             max_programs: usize::MAX,
             stop_children: false,
+            replay_check: false,
+            seed: 0,
+            iso_check: false,
+            iso_max_b: 0,
+            clock_check: false,
+            clock_all_targets: false,
         }
     }
 }
@@ -181,7 +199,367 @@ thread_local! {
     pub static COSIM_NANOS: std::cell::Cell<u64> = const { std::cell::Cell::new(0) };
 }
 
+/// C01: every execution of the program's full tree is re-executed from the printed form of the
+/// schedule the runtime recorded for it, and must be identical.
+pub fn replay_program<F: Family>(idx: usize, prog: &Program<F>, mode: &Mode) -> ProgReport {
+    use crate::explore::{path_events, Explorer, RecEvent, RecSched};
+    use shuttle_engine::runtime::execution::CurrentSchedule;
+    use shuttle_engine::scheduler::serialization::serialize_schedule;
+    let mut rep = ProgReport {
+        idx,
+        ..Default::default()
+    };
+    let kinds = op_kinds(prog);
+    let desc = prog.describe();
+    let arc = Arc::new(SS(prog.clone()));
+    let ex = Explorer::new(Options {
+        preemption_bound: mode.preemption_bound,
+        seed: mode.seed,
+        data_from_seed: true,
+        ..Options::default()
+    });
+    let config = base_config();
+    let mut viols: Vec<Violation> = Vec::new();
+    let mut outcomes: BTreeSet<String> = BTreeSet::new();
+    let push = |what: String, culprit: &str, path: &[crate::explore::Node], viols: &mut Vec<Violation>| {
+        if viols.len() < mode.max_violations_per_program {
+            viols.push(Violation {
+                kind: VKind::Other("Replay".into()),
+                culprit: culprit.to_string(),
+                family: F::NAME.into(),
+                program_idx: idx,
+                program: desc.clone(),
+                op_kinds: kinds.clone(),
+                what,
+                alts: alts_to_strings(path),
+                choices: path.iter().map(|n| n.idx).collect(),
+            });
+        }
+    };
+    loop {
+        let (log, ending) = run_once::<F, _>(&arc, ex.handle(), &config);
+        // the runtime's own record of this execution
+        let recorded = CurrentSchedule::get_schedule();
+        ex.advance();
+        if let Some(d) = ex.diverged() {
+            rep.machinery_error = Some(format!("{} — program {}", d, desc));
+            break;
+        }
+        let path = ex.path();
+        rep.executions += 1;
+        outcomes.insert(format!("{:?}|{:?}", ending, log.iter().filter_map(|e| if let EKind::Ret(r) = &e.kind { Some(format!("{}:{:?}", e.thread, r)) } else { None }).collect::<Vec<_>>()));
+        let mine = ex.reconstructed_schedule();
+        if recorded != mine {
+            push(
+                format!("the schedule recorded by the runtime differs from the sequence of answered scheduler calls: recorded {:?}, calls {:?}", recorded, mine),
+                "recorded-schedule",
+                &path,
+                &mut viols,
+            );
+        } else {
+            // replay from the printed form
+            let text = serialize_schedule(&recorded);
+            let (rs, rec) = RecSched::new(shuttle_schedulers::ReplayScheduler::new_from_encoded(&text));
+            let (log2, ending2) = run_once::<F, _>(&arc, rs, &config);
+            let ev2: Vec<RecEvent> = rec.borrow().iter().filter(|e| !matches!(e, RecEvent::NewExecution(_))).cloned().collect();
+            let ev1 = path_events(&path);
+            // a replay ends with one extra `new_execution -> None`; compare the calls in between
+            if ev1 != ev2 {
+                let at = ev1.iter().zip(ev2.iter()).position(|(a, b)| a != b).unwrap_or(ev1.len().min(ev2.len()));
+                push(
+                    format!("replay diverges at scheduler call {}: original {:?}, replay {:?} (lengths {} / {})", at, ev1.get(at), ev2.get(at), ev1.len(), ev2.len()),
+                    "decisions",
+                    &path,
+                    &mut viols,
+                );
+            } else if log != log2 {
+                let at = log.iter().zip(log2.iter()).position(|(a, b)| a != b).unwrap_or(log.len().min(log2.len()));
+                push(
+                    format!("replay produced a different observation log at entry {}: original {:?}, replay {:?}", at, log.get(at), log2.get(at)),
+                    "observations",
+                    &path,
+                    &mut viols,
+                );
+            } else if ending != ending2 {
+                push(format!("replay ended differently: original {:?}, replay {:?}", ending, ending2), "ending", &path, &mut viols);
+            } else {
+                rep.traces_validated += 1;
+            }
+        }
+        if rep.sample.is_none() {
+            rep.sample = Some(serde_json::json!({"program": desc, "schedule": alts_to_strings(&path), "encoded": serialize_schedule(&recorded), "ending": format!("{:?}", ending)}));
+        }
+        if ex.exhausted() {
+            rep.full_tree = mode.preemption_bound.is_none();
+            break;
+        }
+        if rep.executions >= mode.max_execs {
+            rep.capped = true;
+            break;
+        }
+    }
+    // the uncontrolled-nondeterminism checker wrapped around the same exploration must stay silent
+    if rep.machinery_error.is_none() {
+        let ex2 = Explorer::new(Options {
+            preemption_bound: mode.preemption_bound,
+            seed: mode.seed,
+            data_from_seed: true,
+            ..Options::default()
+        });
+        let mut n2 = 0u64;
+        loop {
+            let wrapped = shuttle_schedulers::UncontrolledNondeterminismCheckScheduler::new(ex2.handle());
+            let (_log, ending) = run_once::<F, _>(&arc, wrapped, &config);
+            ex2.advance();
+            n2 += 1;
+            if let RawEnding::Panic(m) = &ending {
+                if m.contains("nondeterminism") {
+                    let path = ex2.path();
+                    push(format!("the uncontrolled-nondeterminism checker rejected a body whose only nondeterminism is scheduling and shuttle::rand: {}", m), "nondeterminism-checker", &path, &mut viols);
+                }
+            }
+            if ex2.exhausted() || n2 >= mode.max_execs {
+                break;
+            }
+        }
+        rep.decisions = n2;
+    }
+    let st = ex.stats();
+    rep.max_depth = st.max_depth;
+    rep.impl_outcomes = outcomes.len();
+    rep.model_states = 0;
+    rep.violations = viols;
+    rep
+}
+
+/// A scheduler that serves a fixed list of executions, each a fixed list of alternatives.
+pub struct SeqScheduler {
+    pub execs: Vec<Vec<Alt>>,
+    pub cur: usize,
+    pub pos: usize,
+    pub started: usize,
+    pub mismatch: std::rc::Rc<std::cell::RefCell<Option<String>>>,
+}
+
+impl shuttle_engine::scheduler::Scheduler for SeqScheduler {
+    fn new_execution(&mut self) -> Option<shuttle_engine::scheduler::Schedule> {
+        if self.started >= self.execs.len() {
+            return None;
+        }
+        self.cur = self.started;
+        self.started += 1;
+        self.pos = 0;
+        crate::explore::DECISION.with(|d| d.set(0));
+        Some(shuttle_engine::scheduler::Schedule::new(0))
+    }
+    fn next_task(
+        &mut self,
+        runnable: &[&shuttle_engine::scheduler::Task],
+        _c: Option<shuttle_engine::scheduler::TaskId>,
+        _y: bool,
+    ) -> Option<shuttle_engine::scheduler::TaskId> {
+        crate::explore::DECISION.with(|d| d.set(d.get() + 1));
+        let a = self.execs[self.cur].get(self.pos).cloned();
+        self.pos += 1;
+        match a {
+            Some(Alt::Task(t)) if runnable.iter().any(|r| usize::from(r.id()) == t) => Some(shuttle_engine::scheduler::TaskId::from(t)),
+            Some(Alt::Stop) => None,
+            other => {
+                *self.mismatch.borrow_mut() = Some(format!(
+                    "execution {} decision {}: planned {:?}, offered {:?}",
+                    self.cur,
+                    self.pos - 1,
+                    other,
+                    runnable.iter().map(|r| usize::from(r.id())).collect::<Vec<_>>()
+                ));
+                None
+            }
+        }
+    }
+    fn next_u64(&mut self) -> u64 {
+        crate::explore::DECISION.with(|d| d.set(d.get() + 1));
+        self.pos += 1;
+        0
+    }
+}
+
+/// C14: every execution B of the program, run (i) alone in a fresh Runner::run and (ii) as the
+/// second execution of a Runner::run whose first execution is A, for every A in {complete
+/// schedules} ∪ {every proper prefix of a schedule, stopped there by the scheduler}: B's complete
+/// observation log (task ids, results, clocks, counters, labels, lazy/once/thread-local
+/// initialisation) must be identical, and nothing created in A may be alive when B starts.
+pub fn iso_program<F: Family>(idx: usize, prog: &Program<F>, mode: &Mode) -> ProgReport {
+    use crate::explore::Explorer;
+    use std::collections::BTreeSet as BS;
+    let mut rep = ProgReport {
+        idx,
+        ..Default::default()
+    };
+    let kinds = op_kinds(prog);
+    let desc = prog.describe();
+    let arc = Arc::new(SS(prog.clone()));
+    let config = base_config();
+    // 1. all complete schedules, each run alone (one Runner::run per execution)
+    let ex = Explorer::new(Options::default());
+    let mut complete: Vec<(Vec<Alt>, Vec<Entry<F::Res>>, RawEnding, Vec<AuxEntry>)> = Vec::new();
+    loop {
+        AUX.with(|a| a.borrow_mut().clear());
+        F::reset_globals();
+        let (log, ending) = run_once::<F, _>(&arc, ex.handle(), &config);
+        let aux = AUX.with(|a| std::mem::take(&mut *a.borrow_mut()));
+        ex.advance();
+        if let Some(d) = ex.diverged() {
+            rep.machinery_error = Some(d);
+            return rep;
+        }
+        let alts: Vec<Alt> = ex.path().iter().map(|n| n.chosen().clone()).collect();
+        complete.push((alts, log, ending, aux));
+        if ex.exhausted() || complete.len() as u64 >= mode.max_execs {
+            break;
+        }
+    }
+    rep.executions = complete.len() as u64;
+    // 2. predecessors: complete schedules and every stopped prefix
+    let mut preds: BS<Vec<String>> = BS::new();
+    for (alts, _, _, _) in &complete {
+        let strs: Vec<String> = alts.iter().map(|a| format!("{:?}", a)).collect();
+        preds.insert(strs.clone());
+        for k in 0..alts.len() {
+            let mut p = strs[..k].to_vec();
+            p.push("Stop".into());
+            preds.insert(p);
+        }
+    }
+    let parse = |v: &Vec<String>| -> Vec<Alt> {
+        v.iter()
+            .map(|s| {
+                if s == "Stop" {
+                    Alt::Stop
+                } else {
+                    let n: usize = s.trim_start_matches("Task(").trim_end_matches(')').parse().unwrap();
+                    Alt::Task(n)
+                }
+            })
+            .collect()
+    };
+    // 3. successors
+    let b_idx: Vec<usize> = if mode.iso_max_b == 0 || complete.len() <= mode.iso_max_b {
+        (0..complete.len()).collect()
+    } else {
+        (0..mode.iso_max_b).map(|i| i * (complete.len() - 1) / (mode.iso_max_b - 1)).collect()
+    };
+    let mut viols: Vec<Violation> = Vec::new();
+    let mut classes: BS<String> = BS::new();
+    for a in &preds {
+        let a_alts = parse(a);
+        for &bi in &b_idx {
+            let (b_alts, b_log, b_end, b_aux) = &complete[bi];
+            if *b_end != RawEnding::Ok {
+                continue; // a failing B ends the run: it is its own last execution anyway
+            }
+            let logs: Logs<F::Res> = std::rc::Rc::new(std::cell::RefCell::new(Vec::new()));
+            let auxs: AuxLogs = std::rc::Rc::new(std::cell::RefCell::new(Vec::new()));
+            AUX.with(|x| x.borrow_mut().clear());
+            F::reset_globals();
+            let mm = std::rc::Rc::new(std::cell::RefCell::new(None));
+            let sched = SeqScheduler {
+                execs: vec![a_alts.clone(), b_alts.clone()],
+                cur: 0,
+                pos: 0,
+                started: 0,
+                mismatch: mm.clone(),
+            };
+            let body = make_body::<F>(&arc, &logs, &auxs);
+            let r = std::panic::catch_unwind(std::panic::AssertUnwindSafe(|| shuttle_engine::Runner::new(sched, config.clone()).run(body)));
+            let last_aux = AUX.with(|x| std::mem::take(&mut *x.borrow_mut()));
+            rep.decisions += 1; // pair runs
+            let a_complete = !matches!(a_alts.last(), Some(Alt::Stop));
+            classes.insert(format!("{}|{}", if a_complete { "A-complete" } else { "A-stopped" }, a_alts.len()));
+            let mut complain = |what: String, culprit: &str| {
+                if viols.len() < mode.max_violations_per_program + 3 {
+                    viols.push(Violation {
+                        kind: VKind::Other("Isolation".into()),
+                        culprit: culprit.to_string(),
+                        family: F::NAME.into(),
+                        program_idx: idx,
+                        program: desc.clone(),
+                        op_kinds: kinds.clone(),
+                        what,
+                        alts: a.iter().cloned().chain(std::iter::once("||".to_string())).chain(b_alts.iter().map(|x| format!("{:?}", x))).collect(),
+                        choices: vec![],
+                    });
+                }
+            };
+            match r {
+                Err(p) => {
+                    // A itself may legitimately fail (deadlocking schedule): then there is no B
+                    let msg = payload_to_string(&p);
+                    let a_fails = complete.iter().any(|(al, _, e, _)| *al == a_alts && *e != RawEnding::Ok);
+                    if !a_fails {
+                        complain(format!("the run panicked: {}", msg), "run-panicked");
+                    }
+                    continue;
+                }
+                Ok(n) => {
+                    if let Some(m) = mm.borrow().as_ref() {
+                        complain(format!("execution B could not follow its schedule after predecessor A: {}", m), "schedule-not-applicable");
+                        continue;
+                    }
+                    if n != 2 {
+                        complain(format!("Runner::run returned {} for two executions", n), "count");
+                    }
+                }
+            }
+            let ls = logs.borrow();
+            let stopped_at_once = a_alts.len() == 1 && a_alts[0] == Alt::Stop;
+            let b_pair_log = if stopped_at_once { ls.get(0) } else { ls.get(1) };
+            match b_pair_log {
+                None => complain("execution B left no log".into(), "no-log"),
+                Some(l2) => {
+                    if l2 != b_log {
+                        let at = l2.iter().zip(b_log.iter()).position(|(x, y)| x != y).unwrap_or(l2.len().min(b_log.len()));
+                        complain(
+                            format!(
+                                "execution B behaves differently after predecessor A than alone: entry {} is {:?} after A but {:?} alone",
+                                at,
+                                l2.get(at),
+                                b_log.get(at)
+                            ),
+                            "behaviour-differs",
+                        );
+                    } else {
+                        rep.traces_validated += 1;
+                    }
+                }
+            }
+            // ledger: nothing of A alive when B starts; B's own aux events as when alone
+            let b_aux_pair: Vec<String> = last_aux.iter().map(|x| x.what.clone()).collect();
+            let b_aux_alone: Vec<String> = b_aux.iter().map(|x| x.what.clone()).collect();
+            if b_aux_pair != b_aux_alone {
+                complain(
+                    format!("auxiliary events of B differ: after A {:?}, alone {:?} (live-at-start counts values of earlier executions still alive)", b_aux_pair, b_aux_alone),
+                    "ledger",
+                );
+            }
+        }
+    }
+    rep.full_tree = true;
+    rep.impl_outcomes = classes.len();
+    rep.violations = viols;
+    rep.sample = Some(serde_json::json!({"program": desc, "complete_schedules": complete.len(), "predecessors": preds.len(), "successors": b_idx.len()}));
+    rep
+}
+
 pub fn check_program<F: Family>(idx: usize, prog: &Program<F>, mode: &Mode) -> ProgReport {
+    if mode.replay_check {
+        return replay_program(idx, prog, mode);
+    }
+    if mode.iso_check {
+        return iso_program(idx, prog, mode);
+    }
+    if mode.clock_check {
+        return crate::clockcheck::clock_program(idx, prog, mode);
+    }
     let mut rep = ProgReport {
         idx,
         ..Default::default()
@@ -387,6 +765,12 @@ impl Serialize for Mode {
             "max_model_states": self.max_model_states, "max_violations_per_program": self.max_violations_per_program,
             "max_programs": if self.max_programs == usize::MAX { serde_json::Value::Null } else { serde_json::json!(self.max_programs) },
             "stop_children": self.stop_children,
+            "replay_check": self.replay_check,
+            "seed": self.seed,
+            "iso_check": self.iso_check,
+            "iso_max_b": self.iso_max_b,
+            "clock_check": self.clock_check,
+            "clock_all_targets": self.clock_all_targets,
         })
         .serialize(s)
     }
@@ -403,6 +787,12 @@ pub fn mode_from_json(v: &serde_json::Value) -> Mode {
         max_violations_per_program: v["max_violations_per_program"].as_u64().unwrap() as usize,
         max_programs: v["max_programs"].as_u64().map(|x| x as usize).unwrap_or(usize::MAX),
         stop_children: v["stop_children"].as_bool().unwrap_or(false),
+        replay_check: v["replay_check"].as_bool().unwrap_or(false),
+        seed: v["seed"].as_u64().unwrap_or(0),
+        iso_check: v["iso_check"].as_bool().unwrap_or(false),
+        iso_max_b: v["iso_max_b"].as_u64().unwrap_or(0) as usize,
+        clock_check: v["clock_check"].as_bool().unwrap_or(false),
+        clock_all_targets: v["clock_all_targets"].as_bool().unwrap_or(false),
     }
 }
 
@@ -498,8 +888,11 @@ pub struct FamAgg {
 
 /// Worker body: check programs idx ≡ shard (mod nshards), idx ≥ from; print B/E lines.
 pub fn worker_main(fam: &dyn FamilyDyn, set: &str, mode: &Mode, shard: usize, nshards: usize, from: usize, only: Option<usize>, deadline_s: f64) {
-    let mut orig = crate::common::mute_stderr();
-    crate::common::silence_panics();
+    let loud = std::env::var("VX_WORKER_LOUD").is_ok();
+    let mut orig = if loud { std::fs::File::create("/dev/null").unwrap() } else { crate::common::mute_stderr() };
+    if !loud {
+        crate::common::silence_panics();
+    }
     let t0 = std::time::Instant::now();
     let n = fam.len(set).min(mode.max_programs);
     let out = std::io::stdout();
